@@ -21,7 +21,7 @@ func init() {
 			"R10d closed allow-list of process-wide mutable state on the run set: no store rooted at a package-level variable; globals read have init-only writers; objects in globals are used only via sync.Pool / sync/atomic / LoadingCache.Get. " +
 			"R10e reader-owned buffers: in the flat-file readers the number of buffered lines converted into a node equals the number popped (structurally equal pure expressions), so no line of a previous record is re-read and none is skipped. " +
 			"R10h pooled JavaScript VMs are wiped on every path (= C20 R20a) and R10i no run-set store reaches a schema-owned object (= C14 R14a): neither a failed record's script arguments nor a value memoised into the shared declarations can reach a later record. " +
-			"R10f pooled nodes are blank (= C12 R12b–d): a recycled node carries nothing from the record or transform that used it before. R10g the bytes returned for a record are nil or a fresh json.Marshal result, never a slice of a reused buffer (earlier results must not change when later records are read).",
+			"R10j borrowed-buffer discipline of the line/segment readers (= C09 R09a). R10f pooled nodes are blank (= C12 R12b–d): a recycled node carries nothing from the record or transform that used it before. R10g the bytes returned for a record are nil or a fresh json.Marshal result, never a slice of a reused buffer (earlier results must not change when later records are read).",
 		NotDecided: "the algebraic law itself (concatenation/permutation of runs); schemas addressing ancestors (outside the property's quantifier); state kept inside third-party decoders.",
 		Trusted:    commonTrusted,
 		Run:        runC10,
@@ -97,6 +97,10 @@ func runC10(c *core.Ctx) {
 	// ---------------- R10h pooled JavaScript VMs carry nothing from an earlier (possibly failed) record (= C20 R20a)
 	c20VMPool(c, "R10h")
 	c.Floor("R10h", 7, "VM pool discipline")
+	// ---------------- R10j reader-owned buffers: a line/segment borrowed from a decoder's buffer is never live across the
+	// next fill of that decoder unless copied (= C09 R09a): otherwise a record shows bytes of a later record
+	importRules(c, "C09", map[string]string{"R09a": "R10j"})
+	c.Floor("R10j", 15, "borrow sources, stores of borrowed data and refill sites")
 	// ---------------- R10i nothing is memoised into the shared schema while records are read (= C14 R14a)
 	if shared := c14SharedTypes(c); shared != nil {
 		n := c14SharedStores(c, repoFuncsIn(e.run), shared, "R10i", "R10d")
